@@ -2899,6 +2899,153 @@ static void run_case(vf_report *rep, shared *S, hotctx *H, worker *W,
     }
 }
 
+/* ---------------------------------------------------------- large arrays */
+/* Appended to the case (absent bytes = off, so older cases keep their
+ * meaning): sel:1 len:1 shape:1 ops:1.  One pool array is stretched to a
+ * length above the library's large-input thresholds (sampling instead of exact
+ * analysis, heap instead of inline scratch, ...) and 2..4 threads released
+ * from a barrier run two array codecs on that shared input with private
+ * outputs; every result is compared with the sequential one and the whole
+ * phase runs under ThreadSanitizer in the tsan configuration. */
+static const uint32_t big_len[] = {10001, 10240, 12288, 16384, 20000,
+                                   24576, 32768, 40000, 50000, 65537};
+static const uint8_t big_ops[] = {O_ADAPT_AUTO, O_ADAPT_FORCED, O_HELPERS,
+                                  O_PFOR,       O_DICT,         O_FOR,
+                                  O_FOR_BATCH,  O_RLE,          O_DELTA_U,
+                                  O_BP128_64,   O_BP128_32,     O_ELIAS,
+                                  O_FLOAT,      O_DELTA_S};
+#define NBIGOPS ((unsigned)(sizeof(big_ops) / sizeof(big_ops[0])))
+
+typedef struct bigctl {
+    const shared *S;
+    const pool_entry *p;
+    xbar bar;
+    unsigned op[2], par[2], reps;
+    uint64_t expect[2];
+    _Atomic int bad; /* 1 + index of the first op that differed */
+    _Atomic unsigned long long got;
+    _Atomic unsigned who;
+} bigctl;
+
+static void *big_main(void *arg) {
+    bigctl *B = (bigctl *)((void **)arg)[0];
+    const unsigned id = (unsigned)(uintptr_t)((void **)arg)[1];
+    if (xbar_wait(&B->bar) != 0) {
+        return NULL;
+    }
+    for (unsigned rep = 0; rep < B->reps && !atomic_load(&B->bad); rep++) {
+        for (unsigned i = 0; i < 2; i++) {
+            const unsigned k = (i + id) & 1; /* neighbours start on different ops */
+            uint64_t h = op_run_on(B->S, B->p, B->op[k], B->par[k]);
+            if (h != B->expect[k]) {
+                int z = 0;
+                if (atomic_compare_exchange_strong(&B->bad, &z, 1 + (int)k)) {
+                    atomic_store(&B->got, h);
+                    atomic_store(&B->who, id);
+                }
+                return NULL;
+            }
+        }
+    }
+    return NULL;
+}
+
+static void big_phase(vf_report *rep, vf_rd *r, const shared *S,
+                      unsigned nthreads, int tsan) {
+    const uint8_t sel = vf_u8(r), ln = vf_u8(r), shp = vf_u8(r), ops = vf_u8(r);
+    if (sel % 3 != 1) {
+        vf_class("big.off");
+        return;
+    }
+    const pool_entry *src = &S->p[(sel / 3) % NPOOL];
+    const size_t L = big_len[ln % (sizeof(big_len) / sizeof(big_len[0]))];
+    const unsigned shape = shp & 3;
+    uint64_t *v = (uint64_t *)xmalloc(L * 8);
+    uint64_t xs = vf_mix(shp, src->n) | 1;
+    for (size_t k = 0; k < L; k++) {
+        const uint64_t b = src->raw[k % src->n];
+        switch (shape) {
+        case 0: /* tiled: few distinct values, unsorted unless constant */
+            v[k] = b;
+            break;
+        case 1: /* every tile shifted: sawtooth, many distinct values */
+            v[k] = b + (uint64_t)(k / src->n) * (1 + (shp >> 2));
+            break;
+        case 2: /* low bits replaced by pseudo-random ones: mostly distinct */
+            v[k] = (b & ~0xffffffULL) | (vf_xs(&xs) & 0xffffffULL);
+            break;
+        default: /* tiles of the sorted array */
+            v[k] = src->sorted[k % src->n];
+            break;
+        }
+    }
+    pool_entry big;
+    pool_build(&big, v, L);
+    free(v);
+    bigctl *B = (bigctl *)xzalloc(sizeof(bigctl));
+    B->S = S;
+    B->p = &big;
+    B->op[0] = big_ops[(ops & 15) % NBIGOPS];
+    B->op[1] = big_ops[(ops >> 4) % NBIGOPS];
+    B->par[0] = shp >> 2;
+    B->par[1] = ln >> 4;
+    B->reps = tsan ? 1 : 3;
+    for (unsigned i = 0; i < 2; i++) {
+        B->expect[i] = op_run_on(S, &big, B->op[i], B->par[i]);
+    }
+    const unsigned nt = nthreads > 4 ? 4 : nthreads;
+    vf_desc(rep, " big={n=%zu shape=%u from pool %u ops=%s/%u,%s/%u threads=%u}",
+            L, shape, (sel / 3) % NPOOL, op_name[B->op[0]], B->par[0],
+            op_name[B->op[1]], B->par[1], nt);
+    {
+        char cls[64];
+        vf_class("big.on");
+        for (unsigned i = 0; i < 2; i++) {
+            snprintf(cls, sizeof(cls), "big.%s", op_name[B->op[i]]);
+            vf_class(cls);
+        }
+        snprintf(cls, sizeof(cls), "big.len%s",
+                 L <= 16384 ? "<=16384" : L <= 32768 ? "<=32768" : ">32768");
+        vf_class(cls);
+    }
+    vf_evals(1);
+    vf_nontrivial(vf_mix(HB(vf_mix(L, shape), big.raw, L * 8),
+                         ((uint64_t)B->op[0] << 24) | (B->op[1] << 16) |
+                             (B->par[0] << 8) | B->par[1]));
+    pthread_t tid[4];
+    void *args[4][2];
+    unsigned started = 0;
+    xbar_init(&B->bar, nt);
+    for (unsigned t = 0; t < nt; t++) {
+        args[t][0] = B;
+        args[t][1] = (void *)(uintptr_t)t;
+        if (pthread_create(&tid[t], NULL, big_main, args[t]) != 0) {
+            atomic_store(&B->bar.broken, 1);
+            break;
+        }
+        started++;
+    }
+    for (unsigned t = 0; t < started; t++) {
+        pthread_join(tid[t], NULL);
+    }
+    const int bad = atomic_load(&B->bad);
+    if (bad) {
+        const unsigned k = (unsigned)bad - 1;
+        char site[64];
+        snprintf(site, sizeof(site), "big.%s", op_name[B->op[k]]);
+        vf_fail(rep, site, "value",
+                "large shared input (n=%zu, shape %u): thread %u of %u, %s "
+                "par=%u: output hash 0x%016llx differs from the sequential "
+                "run's 0x%016llx",
+                L, shape, atomic_load(&B->who), nt, op_name[B->op[k]],
+                B->par[k], (unsigned long long)atomic_load(&B->got),
+                (unsigned long long)B->expect[k]);
+        g_fail_seen = 1;
+    }
+    free(B);
+    pool_free(&big);
+}
+
 static void case_free(shared *S, hotctx *H, worker *W, unsigned nthreads) {
     for (unsigned t = 0; t < nthreads; t++) {
         if (W[t].clone.raw) {
@@ -3129,6 +3276,9 @@ void vf_run(vf_rd *r, vf_report *rep) {
         vf_nontrivial(ch);
     }
     run_case(rep, S, H, W, nthreads);
+    if (!rep->violated) {
+        big_phase(rep, r, S, nthreads, tsan);
+    }
     case_free(S, H, W, nthreads);
 }
 
